@@ -654,6 +654,10 @@ def global_neighbour_programs():
 NEIGHBOUR_ARGS = [['3', '4'], ['0', '300'], ['-1', '9']]
 
 
+DIRTY = Func('dirty', [('k', INT, False)], EMPTY, [Decl('junk', Arr(INT, False), ArrLit([Un('-', Lit(INT, 1))] * 6 + [Var('k', INT)], INT, False)),
+                                                   W(Index(Var('junk', Arr(INT, False)), Lit(INT, 6))), _mark(' ')])
+
+
 def bitvector_programs():
     """bool arrays of 20 elements (stack literal with run-time entries, dynamic, global, parameter): every element written
     and read through a literal index, a local, a parameter, a computed expression and a global; groups of eight that are
@@ -662,15 +666,15 @@ def bitvector_programs():
     for storage in ('literal', 'dynamic', 'global', 'const_literal'):
         t = Arr(BOOL, storage == 'const_literal')
         a = Var('a', t)
-        gl, pre = [Decl('gk', INT, _i(0))], []
-        elems = [Bin('==', Bin('%', Bin('+', arg(0), _i(k)), _i(3)), _i(0)) if k in (0, 9, 17) else Lit(BOOL, k in (1, 2, 10, 19)) for k in range(n)]
+        gl, pre = [Decl('gk', INT, _i(0))], [ExprStmt(Call(DIRTY, [arg(0)]))]       # leave non-zero bytes where the array will be built
+        elems = [Bin('==', Bin('%', Bin('+', arg(0), _i(k)), _i(3)), _i(0)) if k in (0, 17) else Lit(BOOL, k in (1, 2, 19)) for k in range(n)]      # elements 8..15: constant false
         if storage in ('literal', 'const_literal'):
             pre.append(Decl('a', t, ArrLit(elems, BOOL, storage == 'const_literal')))
         elif storage == 'dynamic':
             pre.append(VLA('a', BOOL, Bin('+', arg(1), _i(n))))
             pre += [Assign(Index(a, Lit(INT, k)), elems[k]) for k in range(n)]
         else:
-            lits = [Lit(BOOL, k in (1, 2, 10, 19), keep=True) for k in range(n)]
+            lits = [Lit(BOOL, k in (1, 2, 19), keep=True) for k in range(n)]
             gl.append(Decl('a', t, ArrLit(lits, BOOL, False)))
         i = Var('i', INT)
         show = lambda: [For(Decl('i', INT, _i(0)), Bin('<', i, Len(a)), OpAssign(i, '+', _i(1)), [W(Cast(Index(a, i), INT))]), _mark(' ')]   # noqa: E731
@@ -694,7 +698,7 @@ def bitvector_programs():
                                                                         [If(Index(Var('b', Arr(BOOL, True)), i), [OpAssign(Var('c', INT), '+', _i(1))])]), Ret(Var('c', INT))])
         body += [W(Call(cnt, [a])), _mark('\n')]
         main = Func('@is_you', [('v', Arr(INT, True), False)], EMPTY, body)
-        yield f'bitvector/{storage}', Program(gl, [main] + funcs + [cnt])
+        yield f'bitvector/{storage}', Program(gl, [main] + funcs + [cnt, DIRTY])
 
 
 BITVECTOR_ARGS = [['0', '0'], ['1', '0'], ['2', '0']]
